@@ -101,6 +101,25 @@ theorem inv_newEpoch {s : CState} {l : List ATx} (h : Inv s l) : Inv { s with ep
     have := (h.past t ht).1
     exact ⟨by simp; omega, fun heq => by simp at heq; omega⟩
 
+/-- dust clearing at the epoch change keeps the invariant: the cleared nonce records belong to an epoch that is over -/
+theorem inv_clearEpoch {s : CState} {l : List ATx} (h : Inv s l) (d : List Nat) :
+    Inv { epoch := s.epoch + 1, accts := fun a => if a ∈ d then ⟨0, 0⟩ else s.accts a } l where
+  acctLe := by
+    intro a; have := h.acctLe a
+    simp only
+    split <;> simp <;> omega
+  seq := h.seq
+  cur := by
+    intro a
+    have := h.acctLe a
+    simp only [curNonce, h.future a (s.epoch + 1) (by omega)]
+    split <;> simp <;> omega
+  future := by intro a e hlt; exact h.future a e (by simp at hlt; omega)
+  past := by
+    intro t ht
+    have := (h.past t ht).1
+    exact ⟨by simp; omega, fun heq => by simp at heq; omega⟩
+
 theorem txsOf_app (a b : List Ev) : txsOf (a ++ b) = txsOf a ++ txsOf b := by
   induction a with
   | nil => rfl
@@ -124,6 +143,9 @@ theorem inv_run_gen {es : List Ev} {s s' : CState} {l : List ATx} (h : Inv s l) 
       | newEpoch =>
         simp [step] at hs; subst hs
         simpa [txsOf] using ih (inv_newEpoch h) hr
+      | clearEpoch d =>
+        simp [step] at hs; subst hs
+        simpa [txsOf] using ih (inv_clearEpoch h d) hr
 
 /-- every accepted chain satisfies the invariant -/
 theorem inv_run {es : List Ev} {s : CState} (h : run genesis es = some s) : Inv s (txsOf es) := by
@@ -186,6 +208,9 @@ theorem no_dup_gen {es : List Ev} {s s' : CState} {l : List ATx} (h : Inv s l) (
       | newEpoch =>
         simp [step] at hs; subst hs
         simpa [txsOf] using ih (inv_newEpoch h) hn hr
+      | clearEpoch d =>
+        simp [step] at hs; subst hs
+        simpa [txsOf] using ih (inv_clearEpoch h d) hn hr
       | tx t =>
         have hn' : ((l ++ [t]).map key).Nodup := by
           simp only [List.map_append, List.map_cons, List.map_nil]
@@ -211,5 +236,19 @@ theorem no_dup {es : List Ev} {s : CState} (h : run genesis es = some s) :
 /-- non-vacuity: a chain with two senders, an epoch change, and nonces restarting at 1 is accepted -/
 example : (run genesis [.tx ⟨1, 0, 1, 0⟩, .tx ⟨2, 0, 1, 0⟩, .tx ⟨1, 0, 2, 0⟩, .newEpoch, .tx ⟨1, 1, 1, 0⟩]).isSome = true := by
   simp [run, step, applyTx, curNonce, genesis]
+
+/-- a chain with a dust clearing at the epoch change: the cleared sender starts again at nonce 1 in the new epoch and
+its old transaction stays refused -/
+example : (run genesis [.tx ⟨1, 0, 1, 0⟩, .clearEpoch [1], .tx ⟨1, 1, 1, 0⟩]).isSome = true ∧
+    ((run genesis [.tx ⟨1, 0, 1, 0⟩, .clearEpoch [1]]).bind (fun s => applyTx s ⟨1, 0, 1, 0⟩)).isNone = true := by
+  simp [run, step, applyTx, curNonce, genesis]
+
+/-- **clear_mid_epoch_allows_replay**: the same clearing WITHOUT the epoch change (a dust clearing on a snapshot block, or
+an epoch that is not incremented after a failed validation) makes an included transaction applicable again — the epoch
+number is the only guard once the nonce record is gone (seeded changes C06-s3 / C06-s4). -/
+theorem clear_mid_epoch_allows_replay :
+    ∃ (es : List Ev) (s : CState) (t : ATx), run genesis es = some s ∧ t ∈ txsOf es ∧
+      (applyTx (clearNow s [t.sender]) t).isSome = true :=
+  ⟨[.tx ⟨1, 0, 1, 0⟩], _, ⟨1, 0, 1, 0⟩, rfl, by simp [txsOf], by simp [applyTx, clearNow, curNonce, step, genesis]⟩
 
 end IdenaModel.Chain
